@@ -193,9 +193,39 @@ def impl_case(case):
     return res
 
 
+def slot_facts(case):
+    """where the selected output slot sits (for the input distribution in the evidence)"""
+    try:
+        before = ast.parse(case["out_src"])
+        op = [c.strip() for c in case["op"].split(".")]
+        cands = resolve(before, op)
+        if not cands:
+            return {}
+        c = cands[0]
+        f = {"definitions_sharing_the_path": len({cc.get("fnpath", cc["path"]) for cc in cands})}
+        if c["kind"] == "param":
+            fn = node_at(before, c["fnpath"])
+            names = [d for d in dotted(before, c["fnpath"])]
+            same = [s2 for s2 in ast.walk(before) if isinstance(s2, ast.FunctionDef) and s2.name == fn.name]
+            f["definitions_with_that_name"] = len(same)
+            f["scope"] = "method" if len(names) > 1 else "module-level function"
+            f["first_param"] = fn.args.args[0].arg if fn.args.args and fn.args.args[0].arg in ("self", "cls") else "other"
+            f["list"] = c["list"]
+            f["position"] = c["j"]
+            f["n_params"] = len(fn.args.posonlyargs) + len(fn.args.args) + len(fn.args.kwonlyargs) + (fn.args.vararg is not None) + (fn.args.kwarg is not None)
+            f["n_defaults"] = len(fn.args.defaults)
+            f["slot_has_default"] = c["dpath"] is not None and (c["list"] != "kwonlyargs" or fn.args.kw_defaults[c["j"]] is not None)
+        else:
+            f["scope"] = "class attribute" if len(c["path"]) > 2 else "module variable"
+        return f
+    except Exception:  # noqa
+        return {}
+
+
 def impl_and_oracle(case):
     r = impl_case(case)
     r["oracle"] = oracle(case, r)
+    r["facts"] = slot_facts(case)
     return r
 
 
@@ -345,6 +375,8 @@ def classify_outside(before, after, path, out_cands):
     if "defaults" in path or "kw_defaults" in path:
         i = path.index("args")
         fnpath = path[:i]
+        if any(c.get("fnpath") == fnpath for c in out_cands):
+            return {"where": "default", "of": "selected-function"}  # another parameter's default: the alignment clause
         same = any(c.get("fnpath") is not None and same_dotted_path(before, c["fnpath"], fnpath) for c in out_cands)
         return {"where": "default", "of": "same-path-definition" if same else "other-definition"}
     if "args" in path:
@@ -519,7 +551,7 @@ def _oracle(case, res):
                 except Exception:  # noqa
                     pass
         elif cl["where"] == "default":
-            if cl["of"] != "same-path-definition":
+            if cl["of"] == "other-definition":
                 cl.update(cause)
         else:
             cl.update(cause)
@@ -606,8 +638,8 @@ def safe_show(tree, d):
 # ------------------------------------------------------------------------------------------------------------
 # case generation
 # ------------------------------------------------------------------------------------------------------------
-OUT_KINDS = {"param": 30, "mparam": 30, "kwonly": 8, "mkwonly": 6, "attr": 22, "var": 6, "attr-assign": 2, "var-assign": 1}
-IN_KINDS = {"attr": 40, "var": 8, "param": 18, "mparam": 18, "kwonly": 4, "mkwonly": 3, "nested-attr": 3, "attr-assign": 3, "var-assign": 3}
+OUT_KINDS = {"param": 30, "mparam": 30, "kwonly": 14, "mkwonly": 12, "attr": 22, "var": 6, "attr-assign": 2, "var-assign": 1}
+IN_KINDS = {"attr": 40, "var": 8, "param": 18, "mparam": 18, "kwonly": 5, "mkwonly": 4, "nested-attr": 3, "attr-assign": 3, "var-assign": 3}
 MALFORMED_KINDS = ["posonly", "vararg", "kwarg", "mposonly", "mvararg", "mkwarg"]
 
 
@@ -855,7 +887,7 @@ def run(chk: core.Check) -> int:
     n_dis = n_cmp = n_skip = 0
     stale = []
     dist = {"stream": {}, "in_kind": {}, "out_kind": {}, "result": {}, "oracle": {}, "wrap": {"none": 0, "template": 0}, "eval": {"on": 0, "off": 0},
-            "model_domain_excluded": {}, "model_flags": {"phantom": 0, "poisoned": 0}, "shared_name": 0, "same_path_defs": 0}
+            "model_domain_excluded": {}, "model_flags": {"phantom": 0, "poisoned": 0}, "shared_name": 0, "slot": {}}
     if model is not None:
         cmp_in = list(zip(cases, impl, model))
         cmp_out = core.pmap(_compare_star, cmp_in, chunksize=16)
@@ -903,6 +935,10 @@ def run(chk: core.Check) -> int:
         # reproduces; the same kind of deviation on a case where model and code differ is a new violation
         status, fails = r["oracle"]
         dist["oracle"][status] = dist["oracle"].get(status, 0) + 1
+        if status in ("ok", "failed"):
+            for fk, fv in r.get("facts", {}).items():
+                dd = dist["slot"].setdefault(fk, {})
+                dd[str(fv)] = dd.get(str(fv), 0) + 1
         chk.count(("sync", c["in_src"], c["out_src"], c["ip"], c["op"], c["wrap"], c["eval"]), status in ("ok", "failed"))
         causes = set()
         for sig, what in fails:
